@@ -488,7 +488,24 @@ func (m *Machine) symPtrLoad(T types.Type, p Ptr) Value {
 			}
 		}
 		if int(p.Cnt)-best > 64 {
-			m.unsupported("symbolic index over %d distinct non-scalar elements", int(p.Cnt)-best)
+			// too many distinct entries to split on: sample the index at the
+			// table's edges and the powers of two (under-approximation,
+			// reported as inconclusive unless a violation is found)
+			cands := []uint64{0, 1, uint64(p.Cnt) - 1, uint64(p.Cnt) / 2, uint64(p.Cnt)/2 - 1}
+			for b := uint64(2); b < uint64(p.Cnt); b *= 2 {
+				cands = append(cands, b, b-1)
+			}
+			var in []uint64
+			for _, c := range cands {
+				if c < uint64(p.Cnt) {
+					in = append(in, c)
+				}
+			}
+			i := m.sampleBits(p.Sym, in, "index into a table of distinct non-scalar entries")
+			if i.K >= uint64(p.Cnt) {
+				m.unsupported("sampled table index out of range")
+			}
+			return vals[i.K]
 		}
 		var defVal Value
 		for i := int64(0); i < p.Cnt; i++ {
